@@ -80,6 +80,16 @@ def run(ck):
                 P = conv.numerical_to_probas(Z).double().numpy()
                 if not np.all(np.isfinite(P)) or P.shape != (Z.shape[0], K) or np.any(P < 0) or np.any(np.abs(P.sum(1) - 1) > 1e-5):
                     probs.append('numerical_to_probas returned an invalid probability row')
+                # other clamp levels, including the documented extreme eps = 0 for the prevalence decoder (its affine image sums to one, so a
+                # positive entry always survives the clamp; the zero_one decoder with eps = 0 can clamp a whole row to 0 and is left out)
+                for eps2 in ([0.0, 1e-6, 0.2] if mode == 'prevalence' else [1e-6, 0.2]):
+                    if eps2 * K >= 1:
+                        continue
+                    P2 = conv.numerical_to_probas(Z, eps=eps2).double().numpy()
+                    ck.count(f'decode eps={eps2}')
+                    if not np.all(np.isfinite(P2)) or P2.shape != (Z.shape[0], K) or np.any(P2 < 0) or np.any(P2 > 1 + 1e-6) or np.any(np.abs(P2.sum(1) - 1) > 1e-5):
+                        r = int(np.argmax(~np.isfinite(P2).all(1) | (P2 < 0).any(1) | (np.abs(P2.sum(1) - 1) > 1e-5)))
+                        probs.append(f'numerical_to_probas(eps={eps2}) returned an invalid probability row {P2[r].tolist()} for input {Z[r].tolist()}')
                 if mode == 'prevalence':
                     prior = conv._prior.double().numpy()
                     want = np.array([Fraction(c, tot) for c in counts], dtype=float)
